@@ -200,17 +200,25 @@ theorem pythiaStage_esOps (cfg : Cfg) (op0 : SugOp) (st : Study) (need : Nat) (o
     · rw [failOp_esOps, updateMetadata_esOps]
     · rw [createStage_esOps, updateMetadata_esOps]
 
+theorem suggestRest_esOps (cfg : Cfg) (op0 : SugOp) (st : Study) (client : String) (count : Nat) (alg : AlgOutcome) :
+    (suggestRest cfg op0 st client count alg).2.esOps = st.esOps := by
+  unfold suggestRest
+  simp only
+  split
+  · rfl
+  · split
+    · rw [finishOp_esOps, foldl_putTrial_esOps]
+    · rw [pythiaStage_esOps, foldl_putTrial_esOps]
+
 theorem suggestBody_esOps (cfg : Cfg) (st : Study) (client : String) (count : Nat) (alg : AlgOutcome) :
     (suggestBody cfg st client count alg).2.esOps = st.esOps := by
   unfold suggestBody
   simp only
   split
-  · rfl
   · split
+    · exact suggestRest_esOps cfg _ st client count alg
     · rfl
-    · split
-      · rw [finishOp_esOps, foldl_putTrial_esOps]
-      · rw [pythiaStage_esOps, foldl_putTrial_esOps]
+  · rw [suggestRest_esOps]
 
 theorem createTrialBody_esOps (k : Bool) (st : Study) (t : Trial) : (createTrialBody k st t).2.esOps = st.esOps := rfl
 theorem completeBody_esOps (st : Study) (id : Nat) (f : Option Meas) (i : Bool) (r : String) :
